@@ -637,10 +637,14 @@ sfd_tran_ep_close(void *arg)
 		nng_stream_listener_close(ep->listener);
 	}
 	NNI_LIST_FOREACH (&ep->negopipes, p) {
-		sfd_tran_pipe_close(p);
+		nni_pipe_close(p->npipe);
 	}
-	NNI_LIST_FOREACH (&ep->waitpipes, p) {
-		sfd_tran_pipe_close(p);
+	// a pipe that finished negotiating but was never matched with an accept
+	// still carries its creator's reference: drop it with the close
+	while ((p = nni_list_first(&ep->waitpipes)) != NULL) {
+		nni_list_remove(&ep->waitpipes, p);
+		nni_pipe_close(p->npipe);
+		nni_pipe_rele(p->npipe);
 	}
 	if (ep->useraio != NULL) {
 		nni_aio_finish_error(ep->useraio, NNG_ECLOSED);
